@@ -223,9 +223,7 @@ theorem expandCompoundSize_frame {K : List Str} (hK : ∀ k ∈ compoundSizeKeys
   simp only []
   have F1 := expandPair_frame F (hK cs!"wh" (by kmem)) (hK cs!"width" (by kmem)) (hK cs!"height" (by kmem))
   apply expandPair_frame _ (hK cs!"dwh" (by kmem)) (hK cs!"dw" (by kmem)) (hK cs!"dh" (by kmem))
-  split
-  · exact expandPair_frame F1 (hK cs!"rxy" (by kmem)) (hK cs!"rx" (by kmem)) (hK cs!"ry" (by kmem))
-  · exact F1
+  exact expandPair_frame F1 (hK cs!"rxy" (by kmem)) (hK cs!"rx" (by kmem)) (hK cs!"ry" (by kmem))
 
 def compoundPosKeys : List Str :=
   [cs!"xy", cs!"xy-loc", ['x'], ['y'], cs!"cxy", cs!"cx", cs!"cy", cs!"xy1", cs!"x1", cs!"y1",
@@ -248,6 +246,7 @@ theorem expandCompoundPos_frame {K : List Str} (hK : ∀ k ∈ compoundPosKeys, 
     (F : Frame K e0 e) : Frame K e0 e.expandCompoundPos := by
   unfold Elem.expandCompoundPos
   simp only []
+  refine Frame.pop ?_ (hK cs!"xy-loc" (by kmem))
   apply expandPair_frame _ (hK cs!"dxy" (by kmem)) (hK cs!"dx" (by kmem)) (hK cs!"dy" (by kmem))
   apply expandPair_frame _ (hK cs!"xy2" (by kmem)) (hK cs!"x2" (by kmem)) (hK cs!"y2" (by kmem))
   apply expandPair_frame _ (hK cs!"xy1" (by kmem)) (hK cs!"x1" (by kmem)) (hK cs!"y1" (by kmem))
